@@ -488,7 +488,8 @@ class FnEdit:
 
 
 class Generator:
-    def __init__(self, unit_path, mode, repo=REPO):
+    def __init__(self, unit_path, mode, repo=REPO, probe=False):
+        self.probe = probe
         self.unit_path = unit_path
         self.mode = mode
         self.repo = repo
@@ -950,6 +951,8 @@ class Generator:
         mbody = m[bo + 1:bc]
         # collect insertions into body: list of (offset, text, tmpl_line, order)
         ins = []
+        if self.probe and not edit.external:
+            ins.append((0, '        proof { assert(false); } /*PROBE:%s*/' % re.search(r'\bfn\s+(\w+)', sig).group(1), tline))
         if edit.start:
             ins.append((0, edit.start[0], edit.start[1]))
         loops = rsscan.find_loops(mbody, 0, len(mbody))
@@ -1052,9 +1055,9 @@ class Generator:
         return '\n'.join(out_lines) + '\n', linemap
 
 
-def generate(unit, mode, repo=REPO):
+def generate(unit, mode, repo=REPO, probe=False):
     path = unit if os.path.exists(unit) else os.path.join(VX_DIR, 'units', unit + '.vx')
-    g = Generator(path, mode, repo).run()
+    g = Generator(path, mode, repo, probe).run()
     text, linemap = g.render()
     return g, text, linemap
 
